@@ -184,4 +184,4 @@ class SaveHistory(Harness):
 
 def harnesses(tier):
     return [SaveHistory(tier)]
-OPTIONS = {'want_smir': True, 'level': 'other'}
+OPTIONS = {'want_smir': True}
